@@ -1,6 +1,7 @@
 //! mc-aggregator: serves C14, C15, C16 (see /verif/DESIGN.md §4) on the real aggregator.
 mod c14;
 mod c15;
+mod c16;
 mod ctl;
 mod sys;
 mod world;
@@ -11,6 +12,7 @@ fn main() {
     match ctx.property.as_str() {
         "C14" => c14::run(&ctx),
         "C15" => c15::run(&ctx),
+        "C16" => c16::run(&ctx),
         other => {
             eprintln!("mc-aggregator does not serve {other} yet");
             std::process::exit(2);
